@@ -10,7 +10,7 @@ from .devices import open_device
 from .formats import file_formats
 from .metacommand_impl import get_as_int
 from . import operators
-from .types import Instruction, Label, Assignment, InstructionPointer, WordList, ParenthesizedExpression
+from .types import Instruction, Label, Assignment, InstructionPointer, WordList, ParenthesizedExpression, CodeBlock
 from . import reports
 
 
@@ -262,6 +262,15 @@ class Compiler:
 
 
     def compile_insn(self, insn, state):
+        if insn.operands and isinstance(insn.operands[-1], CodeBlock):
+            command = builtin_commands.get(insn.name.name) or builtin_commands.get("." + insn.name.name)
+            if not getattr(command, "takes_code_block", False):
+                reports.error(
+                    "wrong-operands",
+                    (insn.operands[-1].ctx_start, insn.operands[-1].ctx_end, f"'{insn.name.name}' does not take a code block")
+                )
+                return None
+
         if insn.name.name in builtin_commands:
             return builtin_commands[insn.name.name].compile_insn(state, insn)
         elif "." + insn.name.name in builtin_commands:
